@@ -98,6 +98,7 @@ Proof.
   all: try (exact (finish_ended e (handle_event (mx e) EListenerDropped) He Hn)).
   all: try (exact (finish_ended e (handle_event (mx e) EGoodbye) He Hn)).
   all: try (apply finish_ended; assumption).
+  all: try (apply finish_ended; [exact He|]; intros Hx; apply Hn; refine (same_end e _ _ _ _ Hx); cbn; destruct (listener_alive e); reflexivity).
   - (* DPort *)
     apply finish_ended; [exact He|]. intros Hx. apply Hn.
     match goal with ev : evt |- _ => destruct ev end;
